@@ -88,17 +88,23 @@ pub fn build(s: &Value) -> Result<TypeGeneratorSettings, String> {
             st = st.type_mod_name(root);
         }
     }
-    if let Some(p) = opt_path(&s["alloc"])? {
-        let is_std = s["alloc"].as_str() == Some("std");
-        if !is_std {
+    // alloc: a path tree; `alloc_std` selects AllocCratePath::Std (the tree is then ::std)
+    if !s["alloc_std"].as_bool().unwrap_or(true) {
+        if let Some(p) = opt_path(&s["alloc"])? {
             st.alloc_crate_path = AllocCratePath::Custom(p);
         }
     }
     st.should_gen_docs = s["docs"].as_bool().unwrap_or(true);
     st.insert_codec_attributes = s["codec"].as_bool().unwrap_or(false);
-    st.compact_type_path = opt_path(&s["compact"])?;
-    st.decoded_bits_type_path = opt_path(&s["bits"])?;
-    st.compact_as_type_path = opt_path(&s["compact_as"])?;
+    if s["has_compact"].as_bool().unwrap_or(false) {
+        st.compact_type_path = opt_path(&s["compact"])?;
+    }
+    if s["has_bits"].as_bool().unwrap_or(false) {
+        st.decoded_bits_type_path = opt_path(&s["bits"])?;
+    }
+    if s["has_compact_as"].as_bool().unwrap_or(false) {
+        st.compact_as_type_path = opt_path(&s["compact_as"])?;
+    }
     // registration calls in order: {"op":"all_d"|"all_a"|"for_d"|"for_a","path","items","recursive"}
     for call in list(&s["derive_calls"]) {
         let op = call["op"].as_str().unwrap_or("");
